@@ -1,6 +1,7 @@
 import Gonuts.Model.Sexp
 import Gonuts.Model.Spend
 import Gonuts.Spec.Spendable
+import Gonuts.Model.Nut10Parse
 /-!
   Driver commands `spend.*` (stateless).  Core-only imports.
 
@@ -163,6 +164,12 @@ def signCovers (tab : List ((Key × Msg) × Sig)) (k : Key) (ms : List Msg) : Bo
 
 def handle (cmd : String) (args : List Sexp) : Option Sexp :=
   match cmd, args with
+  | "spend.parse-secret", [s] => do
+    match Nut10Parse.parseSecret (← s.asStr?) with
+    | some p =>
+      let kind := match p.kind with | .p2pk => "p2pk" | .htlc => "htlc" | .anyone => "anyone"
+      some (.list [.atom "secret", .atom kind, .str p.nonce, .str p.data, .list (p.tags.map ofStrs)])
+    | none => some (.atom "plain")
   | "spend.parseint", [s, bits] => do
     match parseInt (← s.asStr?) (← bits.asNat?) with
     | some v => some (.list [.atom "ok", ofInt v])
